@@ -60,9 +60,11 @@ CHECKS["C02"] = ("model_checking",
     "DESIGN.md section 1). RefParse classifies each head as must-accept (method, path, query, every field in order "
     "compared exactly), must-reject (error class compared) or implementation-free (internal consistency only). 6k "
     "(quick) / 200k (thorough) heads over the full byte range go through the real parser twice (whole buffer and "
-    "fragmented reads).",
+    "fragmented reads); the field order of the Request the handler gets (after the framing fields are lifted out) is "
+    "judged by Framing's header clause on framing-gen.",
     "Trusted: TLC and the transcription of the ABNF; free zone listed in DESIGN.md section 4 C02 (bare LF, CR next to OWS, "
-    "obs-text, URL-normalised targets).", "4 C02")
+    "obs-text, URL-normalised targets); narrowed during the build: a tolerated head must still be exposed faithfully "
+    "(bare LF = line end, UTF-8 target = percent-encoded bytes), non-UTF-8 targets are must-reject.", "4 C02")
 
 CHECKS["C06"] = ("model_checking",
     "TLA+ predicates Response!FieldsOk/BodyOk/RefuseSet + independent RFC 7230 response-head parser + Chunked decoder; "
